@@ -41,7 +41,9 @@ int main(int argc, char **argv)
             stack[sp++] = tp; all[nall++] = tp;
         } else {
             parsec_taskpool_t *b = stack[--sp], *a = stack[--sp];
-            stack[sp++] = parsec_compose(a, b);
+            parsec_taskpool_t *c = parsec_compose(a, b);
+            if( c != a && c != b ) all[nall++] = c;     /* a new compound object */
+            stack[sp++] = c;
         }
     }
     parsec_taskpool_t *top = stack[0];
@@ -53,6 +55,8 @@ int main(int argc, char **argv)
     rc = parsec_context_wait(parsec);
     vs_note("WAITED rc %d stamp %lld", rc, (long long)vs_stamp());
     vs_finish();
+    for( int i = 0; i < nall; i++ ) parsec_taskpool_free(all[i]);
+    vs_dc_free(D);
     parsec_fini(&parsec);
     MPI_Finalize();
     return 0;
